@@ -225,7 +225,15 @@ def c16_4(ctx):
                   f'{unparse(ab[0])[:100] if ab else ""}: a program that assembled cannot be listed')
 
 
-RULES = [c16_1, c16_2, c16_3, c16_4]
+def c16_mute(ctx):
+    """"Muted lines appear in none of the formats" presupposes that the mute flag itself is right: the state machine and the
+    guards of #mute / #emit that C08 checks."""
+    from rules.c08 import mute_guards, mute_state
+    mute_guards(ctx)
+    mute_state(ctx)
+
+
+RULES = [c16_1, c16_2, c16_3, c16_4, c16_mute]
 
 _IH = 'assembler/pretty_printer/intelhex.py'
 _MH = 'assembler/pretty_printer/minhex.py'
